@@ -2,7 +2,9 @@
 Cut half: checks/c16_cut.py (pipeline family: spec/Pipeline.tla replayed on the real
 SourceRunner).  Assignment / shard-lineage half: checks/c16_assign.py (splitter
 family: spec/Splitter.tla replayed on the real kinesis / embedded / httpapi
-splitters).  Either half alone still runs when the other family is absent."""
+splitters).  Either half alone still runs when the other family is absent.
+Restart half: checks/restartlib.py (spec/Restart.tla on the real jobs.Job: the splits
+are resumed from the positions of the checkpoint the operators were restored from)."""
 import json
 
 try:
@@ -14,12 +16,22 @@ try:
 except ImportError:
     c16_assign = None
 
-RULE = " || ".join(r for r in (getattr(c16_cut, "RULE_CUT", None), getattr(c16_assign, "RULE_ASSIGN", None)) if r)
+try:
+    import restartlib
+except ImportError:
+    restartlib = None
+
+RULE_RESTART = ("restart half: Restart.tla steps start() of the real jobs.Job (read, Deploy per node, splitter start) while the gated "
+                "publication of an acknowledged checkpoint completes in between; the SourceCheckpoint (id, split positions) handed to the "
+                "splitter must belong to the job checkpoint of the operator checkpoints in the Deploy requests")
+RULE = " || ".join(r for r in (getattr(c16_cut, "RULE_CUT", None), getattr(c16_assign, "RULE_ASSIGN", None), RULE_RESTART if restartlib else None) if r)
 
 
 def run(c):
     if c16_cut is None and c16_assign is None:
         raise ImportError("neither c16_cut nor c16_assign is available")
+    if restartlib is not None:
+        restartlib.single_cut_arm(c, c.tier, "C16")
     if c16_cut is not None:
         c16_cut.cut_half(c)
     if c16_assign is not None:
@@ -28,7 +40,9 @@ def run(c):
 
 def replay(c, path):
     payload = json.load(open(path))
-    if payload.get("family", "pipeline") == "splitter":
+    if payload.get("family") == "restart":
+        restartlib.replay(c, path)
+    elif payload.get("family", "pipeline") == "splitter":
         c16_assign.replay_assign(c, path)
     else:
         c16_cut.replay_cut(c, path)
